@@ -129,6 +129,8 @@ def main(argv: list[str] | None = None) -> int:
         print(f'  self-validation: {selftest.get("summary", "")}')
         for w in selftest.get('weak', []):
             print(f'SELFTEST-WEAK {w}')
+        for w in selftest.get('noisy', []):
+            print(f'SELFTEST-NOISY {w}')
     print(f'{pid}: {"FAIL" if new else "PASS"} rules={len(report.rules)} '
           f'instances={sum(r.instances for r in report.rules)} known={len(known)} new={len(new)} '
           f'wall={wall:.2f}s root={ctx.root}')
